@@ -7,6 +7,10 @@
   (own digit functions `natDigits`/`digitsVal`, own civil calendar `daysFromCivil`/`civilFromDays`).
   The transcription is tied to the Go code by the correspondence ops parse-* / print-* / new-decimal / civil / days.
   The model mirrors the Go code's defects; where the fixed property text fails there is a `_counterexample`.
+
+  Repaired in cedar-go (model, theorems and regression `example`s follow the repaired code): leading `+` in
+  ParseDecimal, NewDecimal's overflow test, Duration(MinInt64) print/parse, range check of date-only datetimes,
+  IPv6 zones.  NOT repaired (an existing test of cedar-go asserts the behaviour): the `minDatetime` constant.
 -/
 import CedarGoProofs.Lemmas.C12Digits
 import CedarGoProofs.Lemmas.C12Decimal
@@ -80,13 +84,11 @@ theorem C12_decimal_parse_canonical (neg : Bool) (I F : List Char) (hI : allDigi
 
 example : parseDecimal "-12.5" = .ok (-125000) := by rfl
 
-/--
-  FULL STATEMENT (false for the code): `parseDecimal s = .ok d ↔ s ∈ L(-?[0-9]+\.[0-9]{1,4}) ∧ val s = d ∧ InI64 d`.
-  The code also accepts a leading `+` (`strconv.ParseInt` does): `C12_decimal_plus_counterexample`.
-  Proved: the accepted strings are EXACTLY sign? digits `.` 1–4 digits with sign ∈ {ε, `-`, `+`} whose exact value (in
-  ten-thousandths) fits in `int64`, and the result is that exact value — i.e. the documented syntax and range plus the
-  one extra sign, nothing else, never a wrapped or truncated value. -/
-theorem C12_decimal_parse_exact_partial (s : String) (d : Int) :
+/-- `parseDecimal s = .ok d ↔ s ∈ L(-?[0-9]+\.[0-9]{1,4}) ∧ val s = d ∧ InI64 d`:
+  the accepted strings are EXACTLY `-`? digits `.` 1–4 digits (`DecimalSyntax`: sign ∈ {ε, `-`}) whose exact value (in
+  ten-thousandths) fits in `int64`, and the result is that exact value — the documented syntax and range, nothing
+  else, never a wrapped or truncated value. -/
+theorem C12_decimal_parse_exact (s : String) (d : Int) :
     parseDecimal s = .ok d ↔ ∃ sg I F, DecimalSyntax s.toList sg I F ∧ d = decimalValue sg I F ∧ InI64 d :=
   parseDecimalL_ok_iff s.toList d
 
@@ -97,33 +99,37 @@ example : DecimalSyntax "-12.5".toList ['-'] ['1', '2'] ['5'] ∧ decimalValue [
 theorem C12_decimal_parse_in_range (s : String) (d : Int) (h : parseDecimal s = .ok d) : InI64 d :=
   parseDecimalL_ok_inI64 h
 
-/-- `ParseDecimal("+1.5")` is accepted although `+` is not in the documented syntax -/
-theorem C12_decimal_plus_counterexample : parseDecimal "+1.5" = .ok 15000 := by rfl
+/-- a leading `+` (which `strconv.ParseInt` alone would accept) is rejected, whatever follows -/
+theorem C12_decimal_plus_rejected (s : String) (h : s.toList.head? = some '+') : parseDecimal s = .error .extDecimal := by
+  unfold parseDecimal
+  cases hs : s.toList with
+  | nil => rw [hs] at h; cases h
+  | cons c rest =>
+    rw [hs] at h
+    simp only [List.head?_cons, Option.some.injEq] at h
+    subst h
+    exact parseDecimalL_plus rest
 
-/--
-  FULL STATEMENT (false for the code), DESIGN `newDecimal_exact`:
-  `-4 ≤ e ≤ 14 → NewDecimal i e = (if InI64 (i·10^(e+4)) then ok (i·10^(e+4)) else error)` for every `int64` `i`.
-  Proved part: every non-positive exponent, and every positive exponent whose product `i·10^e` fits in `int64`
-  (the sub-domain on which Go's overflow test `intPart < i` is sound). -/
-theorem C12_newDecimal_exact_partial (i e : Int) (hi : InI64 i) (he : -4 ≤ e ∧ e ≤ 14)
-    (hs : e ≤ 0 ∨ InI64 (i * 10 ^ e.toNat)) :
+-- regression (was `C12_decimal_plus_counterexample : parseDecimal "+1.5" = .ok 15000`)
+example : parseDecimal "+1.5" = .error .extDecimal ∧ parseDecimal "1.5" = .ok 15000 := ⟨by rfl, by rfl⟩
+
+/-- DESIGN `newDecimal_exact`, full strength: for every `int64` mantissa and every admissible exponent,
+  `NewDecimal i e` is the mathematically exact value `i·10^(e+4)` (raw ten-thousandths) when that fits in `int64`,
+  and an error otherwise — never a wrapped value (the guard `i > MaxInt64/10^e`, `i < MinInt64/10^e` is exact). -/
+theorem C12_newDecimal_exact (i e : Int) (hi : InI64 i) (he : -4 ≤ e ∧ e ≤ 14) :
     newDecimalExp i e =
       if InI64 (i * 10 ^ (e + 4).toNat) then .ok (i * 10 ^ (e + 4).toNat) else .error .extDecimal := by
   by_cases h0 : e ≤ 0
   · exact newDecimalExp_nonpos i hi e ⟨he.1, h0⟩
-  · rcases hs with h | h
-    · exact absurd h h0
-    · exact newDecimalExp_pos i hi e ⟨by omega, he.2⟩ h
+  · exact newDecimalExp_pos i hi e ⟨by omega, he.2⟩
 
 example : InI64 15 ∧ newDecimalExp 15 (-1) = .ok 15000 ∧ newDecimalExp (-922337203685478) 0 = .error .extDecimal :=
   ⟨by decide, by rfl, by rfl⟩
 
-/-- outside that sub-domain the constructor wraps silently: `NewDecimal(184468, 14)` returns 55926290448384.0
-    although 184468·10^14 is far outside the decimal range -/
-theorem C12_newDecimal_counterexample :
-    ∃ i e : Int, InI64 i ∧ -4 ≤ e ∧ e ≤ 14 ∧ ¬ InI64 (i * 10 ^ (e + 4).toNat) ∧
-      newDecimalExp i e = .ok 559262904483840000 :=
-  ⟨184468, 14, by decide, by decide, by decide, by decide, by rfl⟩
+-- regression (was `C12_newDecimal_counterexample`: `NewDecimal(184468, 14)` wrapped to 55926290448384.0)
+example : InI64 184468 ∧ ¬ InI64 (184468 * 10 ^ ((14 : Int) + 4).toNat) ∧ newDecimalExp 184468 14 = .error .extDecimal ∧
+    newDecimalExp 9 14 = .ok 9000000000000000000 ∧ newDecimalExp (-184468) 14 = .error .extDecimal :=
+  ⟨by decide, by decide, by rfl, by rfl, by rfl⟩
 
 /-- exponents outside [-4, 14] are rejected -/
 theorem C12_newDecimal_exponent_range (i e : Int) (he : e < -4 ∨ 14 < e) : newDecimalExp i e = .error .extDecimal := by
@@ -132,32 +138,30 @@ theorem C12_newDecimal_exponent_range (i e : Int) (he : e < -4 ∨ 14 < e) : new
 
 /-! ## duration -/
 
-/--
-  FULL STATEMENT (false for the code): `InI64 d → parseDuration (printDuration d) = .ok d`.
-  Proved part: every value except MinInt64. -/
-theorem C12_duration_roundtrip_partial (d : Int) (h : InI64 d) (hmin : d ≠ minI64) :
-    parseDuration (printDuration d) = .ok d := by
+/-- every duration value — all 2^64 millisecond counts, MinInt64 included — prints to a string that parses back to
+    the same value -/
+theorem C12_duration_roundtrip (d : Int) (h : InI64 d) : parseDuration (printDuration d) = .ok d := by
   simp only [parseDuration, printDuration, String.toList_ofList]
-  exact parseDurationL_printDurationL d h hmin
+  exact parseDurationL_printDurationL d h
 
-example : InI64 (-90061001) ∧ (-90061001 : Int) ≠ minI64 ∧ printDuration (-90061001) = "-1d1h1m1s1ms" :=
-  ⟨by decide, by decide, by rfl⟩
+example : InI64 (-90061001) ∧ printDuration (-90061001) = "-1d1h1m1s1ms" := ⟨by decide, by rfl⟩
 
-/-- MinInt64 prints as `"-"` (the negation wraps), which does not parse -/
-theorem C12_duration_min_counterexample :
-    ∃ d : Int, InI64 d ∧ printDuration d = "-" ∧ parseDuration (printDuration d) = .error .extDuration :=
-  ⟨minI64, by decide, by rfl, by rfl⟩
-
-/-- … and the in-range literal for MinInt64 is rejected by `ParseDuration` (the magnitude is accumulated as a
-    positive `int64`) -/
-theorem C12_duration_min_literal_counterexample :
-    parseDuration "-9223372036854775808ms" = .error .extDuration ∧ parseDuration "-9223372036854775807ms" = .ok (minI64 + 1) :=
-  ⟨by decide +kernel, by decide +kernel⟩
+-- regression (was `C12_duration_min_counterexample`: MinInt64 printed as "-"; and
+-- `C12_duration_min_literal_counterexample`: the in-range literal "-9223372036854775808ms" was rejected)
+example : InI64 minI64 ∧ printDuration minI64 = "-106751991167d7h12m55s808ms" ∧
+    parseDuration (printDuration minI64) = .ok minI64 ∧
+    parseDuration "-9223372036854775808ms" = .ok minI64 ∧
+    parseDuration "-9223372036854775809ms" = .error .extDuration ∧
+    parseDuration "9223372036854775808ms" = .error .extDuration ∧
+    parseDuration "9223372036854775807ms" = .ok maxI64 :=
+  ⟨by decide, by rfl, by decide +kernel, by decide +kernel, by decide +kernel, by decide +kernel, by decide +kernel⟩
 
 /--
   FULL STATEMENT (DESIGN `duration_parse_exact`): accepted ↔ units in order d,h,m,s,ms each at most once, total in range.
-  Proved part: whatever `ParseDuration` accepts has an in-range value — every overflow guard of the loop is sound, so no
-  quantity, product or running total ever wraps (the rejected in-range literal is `C12_duration_min_literal_counterexample`). -/
+  Proved part: whatever `ParseDuration` accepts has an in-range value — every overflow guard of the loop is sound for its
+  limit (2^63 after a `-`, 2^63−1 otherwise), so no quantity, product or running total ever wraps.  Missing: the
+  converse (every in-order literal whose total is in range is accepted); it holds on every printed form
+  (`C12_duration_roundtrip`) and is otherwise checked by the specification oracle of the harness. -/
 theorem C12_duration_parse_exact_partial (s : String) (d : Int) (h : parseDuration s = .ok d) : InI64 d :=
   parseDurationL_ok_inI64 h
 
@@ -235,19 +239,25 @@ example : yearText false 2024 ++ ('-' :: (padL 2 1 ++ ('-' :: (padL 2 1 ++ ('T' 
     "2024-01-01T12:34:56+0130".toList ∧
     parseDatetime "2024-01-01T12:34:56+0130" = .ok 1704107096000 := ⟨by rfl, by decide +kernel⟩
 
-/-- date-only literals give the day's midnight — wrapped to `int64`, because this path has no range test -/
+/-- every date-only literal (both year formats, any valid calendar day) gives the mathematically exact midnight
+    `days·86400000` when that fits in `int64` milliseconds and is rejected otherwise — the exact range, never a
+    wrapped value -/
 theorem C12_datetime_parse_dateonly (expanded : Bool) (y : Int) (m d : Nat)
     (hy : if expanded then y.natAbs ≤ 999999999 else 0 ≤ y ∧ y ≤ 9999)
     (hv : 1 ≤ m ∧ m ≤ 12 ∧ 1 ≤ d ∧ d ≤ daysInMonth y m) :
     parseDatetimeL (yearText expanded y ++ ('-' :: (padL 2 m ++ ('-' :: (padL 2 d ++ []))))) =
-      .ok (wrap (daysFromCivil y m d * 86400000)) :=
+      if InI64 (daysFromCivil y m d * 86400000) then .ok (daysFromCivil y m d * 86400000) else .error .extDatetime :=
   parseDatetimeL_dateonly expanded y m d hy hv
 
-/-- the date-only path has no range check: `+999999999-12-31` is accepted with a wrapped value -/
-theorem C12_datetime_dateonly_counterexample :
-    ¬ InI64 (daysFromCivil 999999999 12 31 * 86400000) ∧
-      parseDatetime "+999999999-12-31" = .ok (wrap (daysFromCivil 999999999 12 31 * 86400000)) :=
-  ⟨by decide, by rfl⟩
+-- regression (was `C12_datetime_dateonly_counterexample`: `+999999999-12-31` was accepted with a wrapped value);
+-- the first and last midnights of the range still parse
+example : ¬ InI64 (daysFromCivil 999999999 12 31 * 86400000) ∧
+    parseDatetime "+999999999-12-31" = .error .extDatetime ∧
+    parseDatetime "-292275055-05-16" = .error .extDatetime ∧
+    parseDatetime "+292278994-08-18" = .error .extDatetime ∧
+    parseDatetime "-292275055-05-17" = .ok (-9223372036828800000) ∧
+    parseDatetime "+292278994-08-17" = .ok 9223372036828800000 :=
+  ⟨by decide, by decide +kernel, by decide +kernel, by decide +kernel, by decide +kernel, by decide +kernel⟩
 
 /-! ## ip -/
 
@@ -263,6 +273,11 @@ theorem C12_ip_roundtrip_partial (a bits : Nat) (ha : a < 2 ^ 32) (hb : bits ≤
   exact parseIPL_printIPL_v4 a bits (by omega) hb
 
 example : printIP ⟨false, 167772160, 8⟩ = "10.0.0.0/8" ∧ printIP ⟨false, 2130706433, 32⟩ = "127.0.0.1" := ⟨by rfl, by rfl⟩
+
+-- regression (class `ip-zone-accepted`): IPv6 zone identifiers are rejected, alone or with a prefix length
+example : parseIP "fe80::1%eth0" = .error .extIP ∧ parseIP "fe80::1%eth0/64" = .error .extIP ∧
+    parseIP "::1%1" = .error .extIP ∧ parseIP "fe80::1" = .ok ⟨true, 0xfe800000000000000000000000000001, 128⟩ :=
+  ⟨by decide +kernel, by decide +kernel, by decide +kernel, by decide +kernel⟩
 
 /-- an IPv4-mapped IPv6 address (parseable as `::ffff:102:304`) prints in dotted form, which `ParseIPAddr` rejects -/
 theorem C12_ip_4in6_counterexample :
